@@ -551,16 +551,13 @@ func substringIndFunc(arg1, arg2 query, after bool) func(query, iterator) interf
 		case string:
 			word = v
 		case query:
-			node := v.Select(t)
-			if node == nil {
-				return ""
+			// an empty node-set converts to the empty string
+			if node := v.Select(t); node != nil {
+				word = node.Value()
 			}
-			word = node.Value()
 		}
-		if word == "" {
-			return ""
-		}
-
+		// The empty string occurs at the start of every string: substring-before
+		// is then empty and substring-after is the whole first argument.
 		i := strings.Index(str, word)
 		if i < 0 {
 			return ""
